@@ -23,7 +23,7 @@ Proof. unfold owned_strs. rewrite cp_data_is_ref, cp_data_is_const. reflexivity.
 
 (** * the partial copy without children *)
 Lemma Partial_leaf_intro g gc n d :
-  Frame [n] (owned_strs d) g gc -> NoDup (n :: owned_strs d) ->
+  Ext [n] (owned_strs d) g gc -> NoDup (n :: owned_strs d) ->
   nd_at gc n (mk_dat d []) -> lk_at gc n (None, None) -> is_ref d = false -> rd_ref d = None ->
   Partial g gc n d [].
 Proof.
@@ -32,7 +32,7 @@ Proof.
   - by rewrite app_nil_r.
   - apply Chain_ok_nil.
 Qed.
-Lemma Partial_leaf_frame g gc n d : Partial g gc n d [] -> Frame [n] (owned_strs d) g gc.
+Lemma Partial_leaf_frame g gc n d : Partial g gc n d [] -> Ext [n] (owned_strs d) g gc.
 Proof. intros P. pose proof (pa_frame _ _ _ _ _ P) as H. cbn in H. by rewrite app_nil_r in H. Qed.
 Lemma Partial_leaf_nodup g gc n d : Partial g gc n d [] -> NoDup (n :: owned_strs d).
 Proof. intros P. pose proof (pa_nodup _ _ _ _ _ P) as H. cbn in H. by rewrite app_nil_r in H. Qed.
@@ -40,7 +40,7 @@ Proof. intros P. pose proof (pa_nodup _ _ _ _ _ P) as H. cbn in H. by rewrite ap
 Lemma Partial_alloc g : Closed g -> Partial g (alloc_node_h g) (h_next g) rd0 [].
 Proof.
   intros C. apply Partial_leaf_intro.
-  - apply (Frame_alloc_node g C).
+  - apply (Ext_alloc_node g C).
   - apply NoDup_singleton.
   - split; cbn; [set_solver|by rewrite lookup_insert].
   - split; cbn; [set_solver|by rewrite lookup_insert].
@@ -53,7 +53,7 @@ Lemma Partial_set_dat g gc n d d' :
   Partial g (set_dat gc (<[n := mk_dat d' []]> (h_dat gc))) n d' [].
 Proof.
   intros P Ho R1 R2. apply Partial_leaf_intro.
-  - rewrite Ho. apply Frame_st_dat; [by apply Partial_leaf_frame|by left].
+  - rewrite Ho. apply Ext_st_dat; [by apply Partial_leaf_frame|by left].
   - rewrite Ho. by eapply Partial_leaf_nodup.
   - apply nd_at_set_dat_eq; [apply (pa_node _ _ _ _ _ P)|by rewrite lookup_insert].
   - apply lk_at_set_dat, P.
@@ -61,15 +61,15 @@ Proof.
   - done.
 Qed.
 
-Lemma Frame_bump_r ns ss g gc : Frame ns ss g gc -> Frame ns ss g (bump gc).
+Lemma Ext_bump_r ns ss g gc : Ext ns ss g gc -> Ext ns ss g (bump gc).
 Proof.
-  intros Fr. pose proof (Frame_trans _ _ _ _ _ _ _ Fr (Frame_bump gc (fr_closed _ _ _ _ Fr))) as H.
+  intros Fr. pose proof (Ext_trans _ _ _ _ _ _ _ Fr (Ext_bump gc (xt_closed _ _ _ _ Fr))) as H.
   by rewrite !app_nil_r in H.
 Qed.
 Lemma Partial_bump g gc n d : Partial g gc n d [] -> Partial g (bump gc) n d [].
 Proof.
   intros P. apply Partial_leaf_intro.
-  - apply Frame_bump_r. by apply Partial_leaf_frame.
+  - apply Ext_bump_r. by apply Partial_leaf_frame.
   - by eapply Partial_leaf_nodup.
   - apply (pa_node _ _ _ _ _ P).
   - apply (pa_root _ _ _ _ _ P).
@@ -83,17 +83,17 @@ Lemma Partial_add_str g gc n d d' s :
   Partial g (set_dat (alloc_str_h gc s) (<[n := mk_dat d' []]> (h_dat gc))) n d' [].
 Proof.
   intros P Ho R1 R2. pose proof (Partial_leaf_frame _ _ _ _ P) as Fr.
-  pose proof (Frame_trans _ _ _ _ _ _ _ Fr (Frame_alloc_str gc s (fr_closed _ _ _ _ Fr))) as Fr2.
+  pose proof (Ext_trans _ _ _ _ _ _ _ Fr (Ext_alloc_str gc s (xt_closed _ _ _ _ Fr))) as Fr2.
   apply Partial_leaf_intro; [| | | |done|done].
-  - apply (Frame_ext ([n] ++ []) (owned_strs d ++ [h_next gc])).
+  - apply (Ext_ext ([n] ++ []) (owned_strs d ++ [h_next gc])).
     + intros k. by rewrite app_nil_r.
     + intros k. rewrite Ho. rewrite elem_of_app, elem_of_cons. set_solver.
-    + apply (Frame_st_dat _ _ _ (alloc_str_h gc s)); [done|]. by left.
+    + apply (Ext_st_dat _ _ _ (alloc_str_h gc s)); [done|]. by left.
   - rewrite Ho. pose proof (Partial_leaf_nodup _ _ _ _ P) as ND.
     apply NoDup_cons in ND as [ND1 ND2]. apply NoDup_cons. split; [|apply NoDup_cons; split; [|done]].
     + intros Hin. apply elem_of_cons in Hin as [->|Hin]; [|done].
-      destruct (fr_new _ _ _ _ Fr (h_next gc)) as (_ & ? & _); [by left|lia].
-    + intros Hin. destruct (fr_new _ _ _ _ Fr (h_next gc)) as (_ & ? & _); [by right|lia].
+      destruct (xt_new _ _ _ _ Fr (h_next gc)) as (_ & ? & _); [by left|lia].
+    + intros Hin. destruct (xt_new _ _ _ _ Fr (h_next gc)) as (_ & ? & _); [by right|lia].
   - destruct (pa_node _ _ _ _ _ P) as [Hl _]. split; cbn; [set_solver|by rewrite lookup_insert].
   - destruct (pa_root _ _ _ _ _ P) as [Hl Hk]. split; cbn; [set_solver|done].
 Qed.
@@ -193,7 +193,7 @@ Section Dup.
   (** * the failure path: the partial copy is released, the heap is as before *)
   Lemma dup_fail_sim g gc n d tcs :
     Partial g gc n d tcs ->
-    exists g', dup_fail (Some n) gc = Ret (None, g') /\ Frame [] [] g g' /\ h_req g' = h_req gc.
+    exists g', dup_fail (Some n) gc = Ret (None, g') /\ Ext [] [] g g' /\ h_req g' = h_req gc.
   Proof.
     intros P. destruct (Partial_delete _ _ _ _ _ P) as [Hrun Hfr].
     exists (free_all (free_order [T n d tcs]) gc). split; [|split; [done|apply fa_req]].
@@ -210,7 +210,7 @@ Section Dup.
   Proof.
     intros P Hsrc. pose proof (Partial_leaf_frame _ _ _ _ P) as Fr.
     assert (Hne : item <> n).
-    { destruct Hsrc as [Hl _]. destruct (Frame_old _ _ _ _ _ Fr Hl) as [Hn _]. intros ->. apply Hn. by left. }
+    { destruct Hsrc as [Hl _]. destruct (Ext_old _ _ _ _ _ Fr Hl) as [Hn _]. intros ->. apply Hn. by left. }
     pose proof (nd_at_frame _ _ _ _ _ _ Fr Hsrc) as Hi.
     pose proof (pa_node _ _ _ _ _ P) as Hn. change (mk_dat rd0 (tid <$> [])) with nd0 in Hn.
     unfold dup_k0.
@@ -233,12 +233,12 @@ Section Dup.
     - reflexivity.
   Qed.
 
-  Definition str_mono h h' : Prop := forall b s, str_at h b s -> str_at h' b s.
+  Definition str_mono h h' : Prop := forall b s, str_is h b s -> str_is h' b s.
 
   (** * valuestring *)
   Lemma dup_k1_sim (K : M ptr) g gc lf item n d (ks : list positive) :
     Partial g gc n (cp_data d None None) [] -> src_node g lf item d ks -> oclean g gc ->
-    (exists g', dup_k1 K (Some item) (Some n) gc = Ret (None, g') /\ Frame [] [] g g' /\ ofail g g') \/
+    (exists g', dup_k1 K (Some item) (Some n) gc = Ret (None, g') /\ Ext [] [] g g' /\ ofail g g') \/
     (exists v gc1, dup_k1 K (Some item) (Some n) gc = K gc1 /\
        Partial g gc1 n (cp_data d v None) [] /\ oclean g gc1 /\
        match rd_vstr d with
@@ -271,7 +271,7 @@ Section Dup.
       unfold ret at 1. unfold bindM at 1. cbn [mk_dat nd_vstr d0 cp_data rd_vstr is_null negb].
       destruct (dup_fail_sim _ _ _ _ _ P2) as (g' & Hrun & Hfr & Hreq).
       exists g'. split; [exact Hrun|]. split; [done|].
-      exists (h_req gc). split; [|done]. pose proof (fr_req _ _ _ _ Fr). rewrite Hreq. cbn. lia.
+      exists (h_req gc). split; [|done]. pose proof (xt_req _ _ _ _ Fr). rewrite Hreq. cbn. lia.
     - right. rewrite (bindM_Ret _ _ _ _ _ (run_strdup_ok oracle _ _ _ Hs Hz Ho)). mn.
       set (b' := h_next gc). set (ha := alloc_str_h gc _).
       assert (Hna : nd_at ha n (mk_dat d0 [])).
@@ -288,14 +288,14 @@ Section Dup.
       exists (Some b'), h2. split; [reflexivity|]. split; [done|]. split.
       + eapply oclean_step; [exact Hcl|exact Ho|reflexivity].
       + exists b'. split; [done|]. exists s. split.
-        * apply str_at_set_dat. eapply str_at_frame; [|exact Hs]. apply Frame_alloc_str. apply Fr.
+        * apply str_is_set_dat. eapply str_is_frame; [|exact Hs]. apply Ext_alloc_str. apply Fr.
         * split; cbn; [set_solver|by rewrite lookup_insert].
   Qed.
 
   (** * key *)
   Lemma dup_k2_sim (K : M ptr) g gc lf item n d (ks : list positive) v :
     Partial g gc n (cp_data d v None) [] -> src_node g lf item d ks -> oclean g gc ->
-    (exists g', dup_k2 K (Some item) (Some n) gc = Ret (None, g') /\ Frame [] [] g g' /\ ofail g g') \/
+    (exists g', dup_k2 K (Some item) (Some n) gc = Ret (None, g') /\ Ext [] [] g g' /\ ofail g g') \/
     (exists k gc2, dup_k2 K (Some item) (Some n) gc = K gc2 /\
        Partial g gc2 n (cp_data d v k) [] /\ oclean g gc2 /\ str_mono gc gc2 /\
        match rd_key d with
@@ -330,7 +330,7 @@ Section Dup.
       rewrite (bindM_Ret _ _ _ _ _ (run_get_key_plain _ _ _ (proj1 Hn2) (proj2 Hn2))).
       exists (Some b), h2. split; [reflexivity|]. split; [done|]. split; [|split; [|done]].
       - eapply oclean_same; [exact Hcl|reflexivity].
-      - intros b0 s0 H0. by apply str_at_set_dat. }
+      - intros b0 s0 H0. by apply str_is_set_dat. }
     mn. rewrite (bindM_Ret _ _ _ _ _ (run_get_key_plain _ _ _ (proj1 Hi) (proj2 Hi))).
     change (nd_key (mk_dat d ks)) with (rd_key d). rewrite Ek. mn.
     destruct (Hkr b eq_refl eq_refl) as (s & Hs & Hz).
@@ -346,7 +346,7 @@ Section Dup.
       unfold ret at 1. unfold bindM at 1. cbn [mk_dat nd_key d0 cp_data rd_key is_null negb].
       destruct (dup_fail_sim _ _ _ _ _ P2) as (g' & Hrun & Hfr & Hreq).
       exists g'. split; [exact Hrun|]. split; [done|].
-      exists (h_req gc). split; [|done]. pose proof (fr_req _ _ _ _ Fr). rewrite Hreq. cbn. lia.
+      exists (h_req gc). split; [|done]. pose proof (xt_req _ _ _ _ Fr). rewrite Hreq. cbn. lia.
     - right. rewrite (bindM_Ret _ _ _ _ _ (run_strdup_ok oracle _ _ _ Hs Hz Ho)). mn.
       set (b' := h_next gc). set (ha := alloc_str_h gc _).
       assert (Hna : nd_at ha n (mk_dat d0 [])).
@@ -362,7 +362,7 @@ Section Dup.
       pose proof (pa_node _ _ _ _ _ P2) as Hn2.
       rewrite (bindM_Ret _ _ _ _ _ (run_get_key_plain _ _ _ (proj1 Hn2) (proj2 Hn2))).
       assert (Hmono : str_mono gc h2).
-      { intros b0 s0 H0. apply str_at_set_dat. eapply str_at_frame; [|exact H0]. apply Frame_alloc_str. apply Fr. }
+      { intros b0 s0 H0. apply str_is_set_dat. eapply str_is_frame; [|exact H0]. apply Ext_alloc_str. apply Fr. }
       exists (Some b'), h2. split; [reflexivity|]. split; [done|]. split; [|split; [done|]].
       + eapply oclean_step; [exact Hcl|exact Ho|reflexivity].
       + exists b'. split; [done|]. exists s. split; [by apply Hmono|].
